@@ -87,7 +87,7 @@ def case_lines(case, trace):
         lines.append(f"init {k} {v}")
     for p in case["programs"]:
         lines.append(" ".join(["task", p["kind"], p.get("mode", "fast"), str(p.get("timeout", 0)), p.get("form", "ctx")]
-                              + [op_word(op) for op in p["ops"]]))
+                              + [op_word(op) for op in p["ops"] if op[0] != "gc"]))
     for e in trace:
         lines.append(f"run {e[1]}" if e[0] == "run" else f"adv {e[1]}")
     lines.append("end")
@@ -155,7 +155,7 @@ def oracle(case, res):
     within = {}
     for tid, p in enumerate(progs):
         st = steps[tid]
-        flat = [op for op in p["ops"] if op[0] not in ("nin", "nout", "sleep")]
+        flat = [op for op in p["ops"] if op[0] not in ("nin", "nout", "sleep", "gc")]
         diffs = [(lab, {k: a.get(k) for k in set(b) | set(a) if a.get(k) != b.get(k)}) for lab, b, a, _, _, _ in st]
         if p["kind"] == "plain":
             # ctx_isolation: every command of a task outside any transaction goes straight to the store
@@ -211,7 +211,8 @@ def oracle(case, res):
             kind = "locked"
             stats["locked_error"] = 1
         elif kind == "incomplete":
-            bad.append(("own_writes_only", f"task {tid}: the body neither finished nor raised (commands {labels}, caller got {outs[tid]})"))
+            bad.append(("own_writes_only", f"task {tid}: its backend reads do not match its body - a read-through incr/get of a key it had not "
+                                           f"written never reached the store, or the body did not run to its end (commands {labels}, caller got {outs[tid]})"))
             continue
         writes = [(lab, d) for lab, d in diffs if d]
         foreign = [lab for lab, d in diffs if d and not (lab.startswith("set_many:") or lab.startswith("delete_many:"))]
@@ -266,17 +267,22 @@ def oracle(case, res):
     # ---- write phases (lock held) never overlap: globally in serializable mode, per key in locked mode
     if len(modes) == 1 and modes <= {"locked", "serializable"} and all_within:
         spans = {}
+        serial = modes == {"serializable"}
         for tid in txs:
             for lab, _, _, locks, _, g in steps[tid]:
                 if lab.startswith("set_lock:"):
                     name = lab.split(":", 1)[1]
                     full = ":serializable:lock" if name == "g" else ":tx_lock:" + name
                     if locks.get(full) == tid:
-                        spans.setdefault(name, []).append([tid, g, None])
+                        # serializable: the write phase of a transaction is from its first lock to its last unlock, whatever
+                        # the lock is called; locked: one phase per key
+                        group = spans.setdefault("(any)" if serial else name, [])
+                        if not (serial and any(s[0] == tid for s in group)):
+                            group.append([tid, g, None])
                 elif lab.startswith("unlock:"):
                     name = lab.split(":", 1)[1]
-                    for s in spans.get(name, []):
-                        if s[0] == tid and s[2] is None:
+                    for s in spans.get("(any)" if serial else name, []):
+                        if s[0] == tid and (s[2] is None or serial):
                             s[2] = g
         for name, ss in spans.items():
             ss = sorted(ss, key=lambda s: s[1])
@@ -588,6 +594,8 @@ def run(chk: Check) -> int:
     samples = []
     exhaustive = []
     MAXFOUND = 3
+    model_diffs = []
+    mdiff_count = [0]
 
     def account(batch, origin, results=None):
         nonlocal found, evaluations
@@ -610,9 +618,13 @@ def run(chk: Check) -> int:
                 samples.append({"case": r["case"], "trace": [list(map(str, e)) for e in r["res"]["trace"]],
                                 "outcomes": {str(k): canon_outcome(v) for k, v in r["res"]["outcomes"].items()},
                                 "final": {str(k): v for k, v in r["res"]["final"].items()}})
-            if (r["bad"] or r["mdiff"]) and found < MAXFOUND:
+            if r["bad"] and found < MAXFOUND:
                 found += 1
                 report(chk, r, origin)
+            elif r["mdiff"] and not r["bad"]:
+                # the model no longer describes the code; keep searching for an input on which the property itself fails
+                model_diffs.append((r, origin)) if len(model_diffs) < 1 else None
+                mdiff_count[0] += 1
 
     # 1. corpus
     corpus = list(corpus_cases())
@@ -665,9 +677,12 @@ def run(chk: Check) -> int:
         i += len(batch)
         account(batch, "gen")
 
+    if found == 0 and model_diffs:
+        report(chk, *model_diffs[0])
     if proof is not None:
         chk.proof_broken(proof, found > 0)
     chk.coverage.update({
+        "cases_differing_from_model": mdiff_count[0],
         "evaluations": evaluations,
         "distinct_nontrivial": len(nontrivial),
         "rule": "one evaluation = one (program set, schedule) pair run on the real code and replayed on the model; non-trivial iff the run "
